@@ -1,4 +1,5 @@
 import TxVerif.Props.C09
+import TxVerif.Props.C09Live
 import TxVerif.Tie.Skeleton
 open TxVerif
 #print axioms lockInv_step
@@ -11,6 +12,11 @@ open TxVerif
 #print axioms reader_excludes_switch
 #print axioms no_deadlock
 #print axioms holders_progress
+#print axioms step_decreases
+#print axioms steps_bounded
+#print axioms stuck_all_finished
+#print axioms eventually_idle
+#print axioms maximal_run_finishes
 #print axioms Tie.beginTx_ops
 #print axioms Tie.txClose_ops
 #print axioms Tie.finishWith_closes
